@@ -372,7 +372,7 @@ def doUpdate (d : EkfDef) (s : SensorDef) (p : Point) (P : QMat d.n d.n) (z : Li
   let Si ← opt "singular" (gaussJordan _ S)
   let zv : Fin s.Lr.length → Rat := fun i => (z.lookup (s.Lr.getD i.val "")).getD 0
   let hxv : Fin s.Lr.length → Rat := fun i => hx.getD i.val 0
-  let out ← opt "inverse certificate rejected" (sensorUpdate d.filtering H P Q Si (stateVec d p) zv hxv)
+  let out ← opt "inverse certificate rejected" (sensorUpdateJ d.filtering H P Q Si (stateVec d p) zv hxv)
   return (out, nis out.innovation Si)
 
 def opUpdate (j : Json) : Except String Json := do
